@@ -204,6 +204,24 @@ fn c09(out: &mut Out, decl: &Value) {
             out.ev(json!({"ev": "entry", "table": table, "entry": e}));
         }
     }
+    // interleaved lookups across the three tables (a lookup must not depend on earlier lookups)
+    {
+        let mut mism = vec![];
+        let mut rng = Rng::new(77);
+        let first = |t: usize, n: u32| -> Option<(u32, String)> { match t {
+            0 => grammar::CoreInstructionTable::lookup_opcode(n as u16).map(|e| (e.opcode as u32, e.opname.to_string())),
+            1 => grammar::GlslStd450InstructionTable::lookup_opcode(n).map(|e| (e.opcode, e.opname.to_string())),
+            _ => grammar::OpenCLStd100InstructionTable::lookup_opcode(n).map(|e| (e.opcode, e.opname.to_string())) } };
+        // reference answers, each table swept on its own
+        let refs: Vec<Vec<Option<(u32, String)>>> = (0..3).map(|t| (0..256u32).map(|n| first(t, n)).collect()).collect();
+        for round in 0..6000 {
+            let n = if round < 768 { (round / 3) as u32 } else { rng.below(256) as u32 };
+            let t = if round < 768 { round % 3 } else { rng.below(3) };
+            let got = first(t, n);
+            if got != refs[t][n as usize] && mism.len() < 5 { mism.push(json!([t, n, format!("{:?}", got), format!("{:?}", refs[t][n as usize])])); }
+        }
+        out.ev(json!({"ev": "interleaved", "lookups": 6000, "mismatches": mism}));
+    }
     // extended instruction tables: lookups over 0..4096 plus far numbers
     for (table, is_gl) in [("glsl", true), ("opencl", false)] {
         let mut found = vec![];
